@@ -7,6 +7,7 @@ require (
 	github.com/caddyserver/caddy/v2 v2.8.4
 	github.com/gr33nbl00d/caddy-revocation-validator v0.0.0
 	github.com/muesli/cache2go v0.0.0-20221011235721-518229cd8021
+	github.com/syndtr/goleveldb v1.0.0
 	go.uber.org/zap v1.27.0
 	golang.org/x/crypto v0.23.0
 )
@@ -81,7 +82,6 @@ require (
 	github.com/spf13/cast v1.5.0 // indirect
 	github.com/spf13/cobra v1.8.0 // indirect
 	github.com/spf13/pflag v1.0.5 // indirect
-	github.com/syndtr/goleveldb v1.0.0 // indirect
 	github.com/tailscale/tscert v0.0.0-20240517230440-bbccfbf48933 // indirect
 	github.com/urfave/cli v1.22.14 // indirect
 	github.com/zeebo/blake3 v0.2.3 // indirect
